@@ -103,6 +103,21 @@ def chain_cases(q):
     cases.append(("case", ops))
     for d0 in (31, 32, 33):
         cases.append(("case", setup(["lsn"]) + ["peer 0 data 2", "depth %d" % d0, "start read 0 1 %d" % rd(0), "depth 0", "pollone", "pollone", "close 0"]))
+    # packet conn (its own copy of the logic; a deferred completion runs through the callback the operation was scheduled with:
+    # the counting wrapper after a would-block, the bare callback after a deferral at the limit): datagrams of 4 bytes, reads of 4
+    for n in (40, 33, 70, 200):
+        ops = setup(["pkt"]) + ["prog %d start read 0 4 %d" % (rd(0), rd(0)), "peer 0 data %d" % (4 * n), "start read 0 4 %d" % rd(0)] + ["pollone"] * 8 + ["close 0"]
+        cases.append(("case", ops))
+        ops = setup(["pkt"]) + ["prog %d start read 0 4 %d" % (rd(0), rd(0)), "start read 0 4 %d" % rd(0), "peer 0 data %d" % (4 * n)] + ["pollone"] * 8 + ["close 0"]
+        cases.append(("case", ops))
+    for d0 in (0, 5, 31, 32, 33):
+        ops = setup(["pkt"]) + ["prog %d start write 0 4 %d" % (wr(0), wr(0)), "depth %d" % d0, "start write 0 4 %d" % wr(0), "depth 0"] + ["pollone"] * 3 + ["close 0", "pollone"]
+        cases.append(("case", ops))
+        ops = setup(["pkt"]) + ["prog %d start read 0 4 %d" % (rd(0), rd(0)), "peer 0 data 160", "depth %d" % d0, "start read 0 4 %d" % rd(0), "depth 0"] + ["pollone"] * 3 + ["close 0", "pollone"]
+        cases.append(("case", ops))
+    ops = setup(["pkt", "sock", "lsn"]) + ["prog %d start write 0 4 %d" % (rd(1), wr(0)), "prog %d start read 2 1 %d" % (wr(0), rd(2)), "prog %d start read 1 1 %d" % (rd(2), rd(1)),
+                                           "peer 1 data 60", "peer 2 data 60", "start read 1 1 %d" % rd(1)] + ["pollone"] * 6 + ["close 0", "close 2", "cancel 1"]
+    cases.append(("case", ops))
     # regular file at the dispatch limit (deferral needs epoll, which refuses regular files)
     ops = setup(["reg"]) + ["prog %d start read 0 1 %d" % (rd(0), rd(0)), "start read 0 1 %d" % rd(0), "pollone"]
     cases.append(("case", ops))
@@ -291,6 +306,12 @@ def batch_cases():
         cases.append(("case", setup(["sock"]) + ["start read 0 4 10", "peer 0 kill", "depth 32", "start write 0 4 20", "depth 0"] + tail + ["pollone"]))
         cases.append(("case", setup(["sock"]) + ["depth 32", "start write 0 4 20", "depth 0", "peer 0 kill", "depth 32", "start read 0 4 10", "depth 0"] + tail + ["pollone"]))
         cases.append(("case", setup(["sock"]) + ["peer 0 kill", "start read 0 4 10", "start write 0 4 20", "depth 32", "start read 0 4 10", "depth 0"] + tail + ["pollone"]))
+    # packet conn: both directions in flight, handlers that close it, two packet conns ready in one batch
+    cases.append(("case", setup(["pkt"]) + ["start read 0 4 10", "depth 32", "start write 0 4 20", "depth 0", "pollone", "peer 0 data 4", "pollone", "close 0", "close 0", "pollone"]))
+    cases.append(("case", setup(["pkt"]) + ["start read 0 4 10", "depth 32", "start write 0 4 20", "depth 0", "close 0", "pollone", "start read 0 4 10", "start write 0 4 20"]))
+    for who, prog in ((10, "close 0"), (20, "close 0"), (10, "close 1"), (10, "start read 0 4 10 ; close 0"), (10, "start write 1 4 21")):
+        cases.append(("case", setup(["pkt", "pkt"]) + ["prog %d %s" % (who, prog), "start read 0 4 10", "start read 1 4 11", "depth 32", "start write 0 4 20", "depth 0",
+                                                       "peer 0 data 4", "peer 1 data 4", "pollone", "pollone", "close 0", "close 1", "pollone"]))
     # nothing ready: timeout, not success
     cases.append(("case", setup(["sock"]) + ["pollone", "start read 0 4 10", "pollone", "cancel 0", "pollone"]))
     return cases
